@@ -16,6 +16,7 @@
 typedef unsigned long size_t;
 typedef long int64_t;
 typedef unsigned long uint64_t;
+#define INT64_MAX 9223372036854775807L   /* <cstdint>; not used by today's text, lets a repair of F2 compile */
 namespace std { class ostream; }     /* Range.h's operator<< template is never instantiated here */
 extern "C" char *strchr(const char *, int);
 #define CV_CHECK(c, msg) __CPROVER_assert((c), msg)
